@@ -84,7 +84,7 @@ def h_real_prev(shape):
         # only a CONSTANT zero amplitude with a constant detuning is a delay; every other waveform is a pulse
         prev = p0 if (kind == "const0" and shape["det"] == "const") else p1
         fall = prev.type.fall_time(ch, in_eom_mode=False)
-        return [("c10:phase_jump_gap_real_pulses", p2.ti - prev.tf >= ch.phase_jump_time + fall)]
+        return [("c10:phase_jump_gap_real_pulses", p2.ti - prev.tf >= l1.ref_phase_jump_time(ch) + fall)]
 
     return h
 
